@@ -284,5 +284,5 @@ Definition run_file (check_min : bool) (o : enc_opts) (F : list Z -> list Z) (bs
       Written ((if b then write_bom e else []) ++ write_string e (F (d_data d)))
   end.
 
-(** The decoder of the current tree rejects overlong forms (fix b517c94). *)
+(** The decoder of the current tree rejects overlong forms (fix 0d0f6c8). *)
 Definition repo_check_min := true.
